@@ -26,7 +26,7 @@ func (e *csvEncoder) PrintLeadingContent(_ io.Writer, _ string) error {
 	return nil
 }
 
-func (e *csvEncoder) encodeRow(csvWriter *csv.Writer, contents []*CandidateNode) error {
+func (e *csvEncoder) encodeRow(csvWriter *csv.Writer, writer io.Writer, contents []*CandidateNode) error {
 	stringValues := make([]string, len(contents))
 
 	for i, child := range contents {
@@ -36,16 +36,25 @@ func (e *csvEncoder) encodeRow(csvWriter *csv.Writer, contents []*CandidateNode)
 		}
 		stringValues[i] = child.Value
 	}
+	if len(stringValues) == 1 && stringValues[0] == "" {
+		// encoding/csv never quotes an empty field, so a lone one becomes a blank
+		// line, which is no record for any CSV reader: write it quoted
+		csvWriter.Flush()
+		if err := csvWriter.Error(); err != nil {
+			return err
+		}
+		return writeString(writer, "\"\"\n")
+	}
 	return csvWriter.Write(stringValues)
 }
 
-func (e *csvEncoder) encodeArrays(csvWriter *csv.Writer, content []*CandidateNode) error {
+func (e *csvEncoder) encodeArrays(csvWriter *csv.Writer, writer io.Writer, content []*CandidateNode) error {
 	for i, child := range content {
 
 		if child.Kind != SequenceNode {
 			return fmt.Errorf("csv encoding only works for arrays of scalars (string/numbers/booleans), child[%v] is a %v", i, child.Tag)
 		}
-		err := e.encodeRow(csvWriter, child.Content)
+		err := e.encodeRow(csvWriter, writer, child.Content)
 		if err != nil {
 			return err
 		}
@@ -75,13 +84,13 @@ func (e *csvEncoder) createChildRow(child *CandidateNode, headers []*CandidateNo
 
 }
 
-func (e *csvEncoder) encodeObjects(csvWriter *csv.Writer, content []*CandidateNode) error {
+func (e *csvEncoder) encodeObjects(csvWriter *csv.Writer, writer io.Writer, content []*CandidateNode) error {
 	headers, err := e.extractHeader(content[0])
 	if err != nil {
 		return err
 	}
 
-	err = e.encodeRow(csvWriter, headers)
+	err = e.encodeRow(csvWriter, writer, headers)
 	if err != nil {
 		return err
 	}
@@ -91,7 +100,7 @@ func (e *csvEncoder) encodeObjects(csvWriter *csv.Writer, content []*CandidateNo
 			return fmt.Errorf("csv object encoding only works for arrays of flat objects (string key => string/numbers/boolean value), child[%v] is a %v", i, child.Tag)
 		}
 		row := e.createChildRow(child, headers)
-		err = e.encodeRow(csvWriter, row)
+		err = e.encodeRow(csvWriter, writer, row)
 		if err != nil {
 			return err
 		}
@@ -116,11 +125,11 @@ func (e *csvEncoder) Encode(writer io.Writer, node *CandidateNode) error {
 	}
 	var err error
 	if node.Content[0].Kind == ScalarNode {
-		err = e.encodeRow(csvWriter, node.Content)
+		err = e.encodeRow(csvWriter, writer, node.Content)
 	} else if node.Content[0].Kind == MappingNode {
-		err = e.encodeObjects(csvWriter, node.Content)
+		err = e.encodeObjects(csvWriter, writer, node.Content)
 	} else {
-		err = e.encodeArrays(csvWriter, node.Content)
+		err = e.encodeArrays(csvWriter, writer, node.Content)
 	}
 	if err != nil {
 		return err
